@@ -244,3 +244,33 @@ def api_rand(a: int, b: int, l: List[int], d1: int, d2: int) -> None:
     elif t == 5:
         assert isinstance(r, DecStub) and 1 <= r.arg <= 10 and r.arg == int(r.arg)
     hlib.done()
+
+
+BIGB = [(10 ** 28 + 1, 10 ** 28 + 3), (-10 ** 28 - 3, -10 ** 28 - 1), (10 ** 30, 10 ** 30), (2 ** 64 + 1, 2 ** 64 + 2), (-3, 10 ** 29 + 7), (12345678901234567890123456789, 12345678901234567890123456789)]
+
+
+def api_rand_big(bi: int, top: bool, form: int) -> None:
+    """
+    pre: 0 <= bi < 6 and 0 <= form <= 2
+    post: True
+    """
+    # bounds supplied by the host as Python ints of 29+ digits, through the evaluator (names are looked up, not passed directly)
+    hlib.enter(locals())
+    bi, form = hlib.concrete(bi, 0, 5), hlib.concrete(form, 0, 2)
+    with hlib.native():
+        a, b = BIGB[bi]
+        saved = _install([], 0.0)
+        functions.random.near = (0, True if top else False)          # the draw is the upper / lower end of the range the code ASKS for
+        try:
+            from sqv.api import PARSER as _P
+            text = ["rand(a, b)", "a | rand(b)", "x = a\ny = b\nrand(x, y)"][form]
+            try:
+                r = ('ok', _P.eval(text, {'a': a, 'b': b}))
+            except Exception as e:
+                r = ('err', type(e).__name__)
+        finally:
+            _restore(saved)
+        val = r[1].arg if r[0] == 'ok' and isinstance(r[1], DecStub) else r[1]
+        inside = r[0] == 'ok' and not isinstance(val, str) and a <= val <= b and val == int(val)
+    assert r[0] == 'err' or inside, "rand(a, b) with host bounds %d, %d gave %r" % (a, b, val)
+    hlib.done()
